@@ -18,15 +18,23 @@ DECIDED by this check (exact integer-lattice restriction, specs/C16 + specs/lib/
     positively, identity pairing for identical sequences, refusal of the fallback for unequal
     backbone counts), anchors well-formed, at least min_anchors of them, all of them when
     outlier removal is switched off, reported fit not worse than W on exactly those anchors;
-  * forms of the coordinates: every fit / affine / history case is handed over in one of 9
+  * forms of the coordinates: every fit / affine / history case is handed over in one of 12
     forms (float16/32/64 and int32/int64 ndarrays, non-contiguous and Fortran-ordered views,
+    instances of ndarray subclasses - a read-only numpy.memmap, a user subclass -,
     AtomArray / AtomArrayStack), fixed structures also displaced by half ticks; the expected
     values do not depend on the form;
+  * motions off the lattice (family "far"): rotations with rational entries from integer
+    quaternions (a quarter turn down to 0.01 degrees), structures near and far (1200 A) from the
+    origin, tiny / ordinary translations, tiny / large noise; the generating motion's inverse is
+    a WITNESS placement whose exact mean squared deviation TLC knows: the fit must not be worse
+    than the witness by more than (8 + fitted atoms) float32 ulps of the coordinate magnitude
+    (an exact rigid copy fits to zero within that rounding allowance);
   * histories on one transformation object: all sequences of as_matrix() / apply() / edits of
     returned arrays / edits of the attributes up to a bounded length - every accessor result is
     a function of the current attributes only.
 NOT DECIDED: that no rigid placement has a lower RMSD than the returned one for noisy or
-non-congruent inputs (needs singular values); only W bounds the optimum from above.
+non-congruent inputs (needs singular values); only the witnesses (W, the generating motion's
+inverse) bound the optimum from above.
 """
 
 from __future__ import annotations
@@ -39,8 +47,8 @@ PROPERTY = "C16"
 
 MANIFEST = {
     "technique": "TLA+ specification of AffineTransformation (algebra and bounded histories on one object) / superimpose broadcasting / the anchor paths of the homolog variant and exact lattice witnesses for the optimal RMSD (specs/C16, specs/lib/Lattice.tla) model-checked by TLC; TLC's expected outcomes, shapes, affine images, per-step history results and witness bounds replayed against the real functions in every coordinate form; spec-generated and recorded executions (noise, outliers, homologs) judged by TLC",
-    "level_text": "TLC enumerates 12 lattice point sets of every rank (single atom, coincident atoms, collinear, planar, mirror-symmetric and chiral rank-3 sets, 5-6 atom chains) x all 48 elements of the cube group (24 rigid copies, 24 mirrored copies) x translations x atom masks x an integer perturbation x 11 array/stack combinations of fixed and mobile, and integer affine transformations for 1-3 models, and decides: the affine algebra (apply = 4x4 matrix form, model-wise action, count refusals), the broadcasting case analysis, and exact rational witness bounds W for the minimal mean squared deviation (0 for rigid copies and lattice-mirror-plane sets, > 0 for mirrored rank-3 sets). Every case is executed against superimpose / AffineTransformation: proper rotation (orthonormal, det +1), RMSD on the masked atoms <= sqrt(W), whole-structure coincidence where the fit is unique, fitted = apply(mobile) = as_matrix form, shapes and refusals. Every case names the FORM of the coordinates (float16/32/64, int32/int64 ndarrays, non-contiguous and Fortran-ordered views, AtomArray/AtomArrayStack; fixed structures also displaced by half ticks; half-tick translations for the affine cases): expected values are form-independent. All histories of as_matrix / apply / caller edits of returned arrays / attribute edits up to length 4 (5 thorough) on one transformation object: every accessor result is a function of the current attributes. Spec-generated inputs of the outlier / homolog variants (every single displaced residue, residue patterns without a positively scoring pair = alignment-free fallback, identical sequences, unequal counts, max_iterations = 1) and recorded executions with noise, outliers and lattice 'proteins' (synthetic CCD) are judged by TLC: anchor path, anchors well-formed, >= min_anchors, fit on the reported anchors <= W.",
-    "level_note": "DECIDED: lattice witnesses (necessary conditions of optimality), proper rotation, transform consistency, broadcast case analysis, anchor well-formedness. NOT DECIDED: optimality of the fit on noisy / non-congruent inputs below the witness bound W (the optimum needs singular values, which integer arithmetic cannot express) and any rotation outside the cube group; float32 rounding is covered only by tolerances (1e-3 on RMSD, 1e-4 on coordinates, 1e-5 on orthonormality). The combination fixed = stack of m>1 models with a single mobile model is 'Unspecified' (the code refuses it; the documentation neither promises nor excludes it). Trusted: TLC, the TLA+ value parser, numpy.",
+    "level_text": "TLC enumerates 12 lattice point sets of every rank (single atom, coincident atoms, collinear, planar, mirror-symmetric and chiral rank-3 sets, 5-6 atom chains) x all 48 elements of the cube group (24 rigid copies, 24 mirrored copies) x translations x atom masks x an integer perturbation x 11 array/stack combinations of fixed and mobile, and integer affine transformations for 1-3 models, and decides: the affine algebra (apply = 4x4 matrix form, model-wise action, count refusals), the broadcasting case analysis, and exact rational witness bounds W for the minimal mean squared deviation (0 for rigid copies and lattice-mirror-plane sets, > 0 for mirrored rank-3 sets). Every case is executed against superimpose / AffineTransformation: proper rotation (orthonormal, det +1), RMSD on the masked atoms <= sqrt(W), whole-structure coincidence where the fit is unique, fitted = apply(mobile) = as_matrix form, shapes and refusals. Every case names the FORM of the coordinates (float16/32/64, int32/int64 ndarrays, non-contiguous and Fortran-ordered views, instances of ndarray subclasses (read-only numpy.memmap, user subclass), AtomArray/AtomArrayStack; fixed structures also displaced by half ticks; half-tick translations for the affine cases): expected values are form-independent. Motions OFF the lattice (integer-quaternion rotations from a quarter turn down to 0.01 degrees x centres from the origin to 1200 A away x zero / tiny / ordinary translations x no / tiny / large noise x masks x stacks): the generating motion's inverse is a witness placement with an exact mean squared deviation (S1: it is the inverse - R^T R = I as an integer identity); the real fit must not be worse than the witness by more than (8 + fitted atoms) float32 ulps of the coordinate magnitude, and the witness applied with the library's apply() must reproduce its exact deviation. All histories of as_matrix / apply / caller edits of returned arrays / attribute edits up to length 4 (5 thorough) on one transformation object: every accessor result is a function of the current attributes. Spec-generated inputs of the outlier / homolog variants (every single displaced residue, residue patterns without a positively scoring pair = alignment-free fallback, identical sequences, unequal counts, max_iterations = 1) and recorded executions with noise, outliers and lattice 'proteins' (synthetic CCD) are judged by TLC: anchor path, anchors well-formed, >= min_anchors, fit on the reported anchors <= W.",
+    "level_note": "DECIDED: lattice witnesses (necessary conditions of optimality), proper rotation, transform consistency, broadcast case analysis, anchor well-formedness. NOT DECIDED: optimality of the fit on noisy / non-congruent inputs below the witness bound W (the optimum needs singular values, which integer arithmetic cannot express) and any rotation outside the cube group; float32 rounding is covered by tolerances (1e-3 on RMSD, 1e-4 on coordinates, 1e-5 on orthonormality) on the lattice and by an allowance of (8 + fitted atoms) ulps of the coordinate magnitude for the motions off the lattice. The combination fixed = stack of m>1 models with a single mobile model is 'Unspecified' (the code refuses it; the documentation neither promises nor excludes it). Trusted: TLC, the TLA+ value parser, numpy.",
 }
 
 CCD = "/verif/fixtures/ccd/components_synth.bcif"
@@ -664,6 +672,81 @@ def _guarded(fn):
     return wrapper
 
 
+def run_far(rng):
+    """A recorded superimposition of real-valued coordinates: a random rigid motion (rotation angle
+    from 1e-5 rad to a half turn, about a centre anywhere within 2000 A of the origin), optional
+    noise; the generating motion's inverse is the witness placement.  Both RMSDs are measured on
+    the real coordinates (the witness through the library's own apply()) and logged in 1/16 ulp."""
+    np = _np()
+    import biotite.structure as struc
+
+    from harness.tlabind.pool import progress
+
+    n = rng.randint(3, 24)
+    fd, md = rng.choice([(0, 0), (0, 0), (0, 2), (1, 0), (1, 3), (0, 1)])
+    ff, mf = rng.choice(FINE_FORMS), rng.choice(FINE_FORMS)
+    where = rng.choice(["origin", "near", "far", "far", "far"])
+    span = {"origin": 0.0, "near": 60.0, "far": 2000.0}[where]
+    C = np.array([rng.choice([-1, 1]) * rng.uniform(0.15 * span, span) for _ in range(3)])
+    P = np.array([[rng.gauss(0, 6) for _ in range(3)] for _ in range(n)])
+    F = (C + P).astype(np.float32).astype(np.float64)       # the fixed structure as float32 holds it
+    mask = []
+    if rng.random() < 0.35:
+        m = [rng.random() < 0.7 for _ in range(n)]
+        for i in rng.sample(range(n), 3):
+            m[i] = True
+        mask = [m]
+    idx = [i for i in range(n) if not mask or mask[0][i]]
+    noise = rng.choice(["none", "none", "none", "tiny", "large"])
+    Ms, cws, Rws, tws, qs = [], [], [], [], []
+    for _j in range(max(md, 1)):
+        a = int(10 ** rng.uniform(0, 5.3))
+        b, c, d = (rng.randint(-3, 3) for _ in range(3))
+        if rng.random() < 0.1:
+            a = 0
+        if a == b == c == d == 0:
+            a = 1
+        D = a * a + b * b + c * c + d * d
+        Rm = np.array([[a * a + b * b - c * c - d * d, 2 * (b * c - a * d), 2 * (b * d + a * c)],
+                       [2 * (b * c + a * d), a * a - b * b + c * c - d * d, 2 * (c * d - a * b)],
+                       [2 * (b * d - a * c), 2 * (c * d + a * b), a * a - b * b - c * c + d * d]], dtype=float) / D
+        tk = rng.choice(["zero", "tiny", "ordinary"])
+        t = np.array([0.0 if tk == "zero" else rng.uniform(-1, 1) * (3e-4 if tk == "tiny" else 8.0) for _ in range(3)])
+        M = (F - C) @ Rm.T + C + t
+        if noise == "tiny":
+            M = M + np.array([[rng.gauss(0, 3e-4) for _ in range(3)] for _ in range(n)])
+        elif noise == "large":
+            M[rng.randrange(n)] += np.array([rng.choice([-1.0, 1.0]), 0.0, rng.choice([0.0, 0.5])])
+        Ms.append(M)
+        cws.append(-(C + t))
+        Rws.append(Rm.T)
+        tws.append(C)
+        qs.append([a, b, c, d])
+    Mv = np.array(Ms)
+    fixed = shaped_vals(F if fd == 0 else F[np.newaxis], fd, ff)
+    mobile = shaped_vals(Mv[0] if md == 0 else Mv, md, mf)
+    ev = {"op": "far", "fd": fd, "md": md, "nfit": len(idx), "form": [ff, mf], "centre": C.tolist(), "quats": qs,
+          "noise": noise, "n": n, "mask": mask}
+    progress(ev)
+    fitted, tr = struc.superimpose(fixed, mobile, **({"atom_mask": np.array(mask[0])} if mask else {}))
+    probs = transform_sanity(tr, mobile, fitted)
+    fit = coords(fitted)
+    if fit.shape != coords(mobile).shape:
+        probs.append("fitted shape differs from mobile")
+    f3 = fit.reshape(-1, n, 3)
+    mob3 = coords(mobile).reshape(-1, n, 3)
+    placed = coords(struc.AffineTransformation(np.array(cws), np.array(Rws), np.array(tws)).apply(mobile)).reshape(-1, n, 3)
+    mag = float(max(np.abs(F).max(), np.abs(mob3).max(), 1e-30))
+    ue = math.frexp(float(np.float32(mag)))[1] - 1          # 2^ue <= mag < 2^(ue+1)
+    ii = np.array(idx, dtype=int)
+    before = [masked_rmsd(mob3[j] - mob3[j][ii].mean(axis=0), F - F[ii].mean(axis=0), ii) / 2.0 ** (ue - 23) for j in range(f3.shape[0])]
+    ev.update(oc="ok", sane=not probs, problems=probs, ue=ue,
+              qfit=[ulp_q(masked_rmsd(f3[j], F, ii), ue) for j in range(f3.shape[0])],
+              qwit=[ulp_q(masked_rmsd(placed[j], F, ii), ue) for j in range(placed.shape[0])],
+              tiny_motion=[bool(before[j] > 8 + len(idx) and tiny_relative_motion(F, mob3[j], ii)) for j in range(f3.shape[0])])
+    return ev
+
+
 @_guarded
 def gen_trace(item):
     import warnings
@@ -697,7 +780,9 @@ def gen_trace(item):
     for _ in range(item["length"]):
         k = rng.random()
         form = rng.choice(FORMS)
-        if k < 0.5:
+        if k < 0.16:
+            events.append(run_far(rng))
+        elif k < 0.55:
             n = rng.randint(1, 12)
             P = _points(rng, n, rng.choice(["cloud", "cloud", "line", "plane", "point"]))
             n = len(P)
@@ -734,7 +819,7 @@ def gen_trace(item):
                 probs.append("fitted dimensionality differs from mobile")
             ev.update(oc="ok", rmsd2q=qs, sane=not probs, problems=probs)
             events.append(ev)
-        elif k < 0.75:
+        elif k < 0.78:
             n = rng.randint(3, 12)
             P = _points(rng, n, "cloud")
             M = motion(P, rng.choice([0.0, 0.1]))
@@ -808,12 +893,13 @@ def run(ctx):
         "fixed = stack of m>1 models with one mobile model is 'Unspecified' (refusal or model-wise result accepted)",
         "tolerances: RMSD 1e-3 where 0 is expected, msd <= W(1+1e-4)+1e-6 otherwise, 1e-4 on coordinates, 1e-5 on orthonormality/determinant; recorded executions: RMSD^2 <= W + 3e-4",
         "homolog variant: lattice 'proteins' of ALA/GLY/SER residues from the synthetic CCD (/verif/fixtures/ccd), CA atoms on the lattice",
-        "Dom_Form: coordinates are handed over as ndarrays (float16/32/64, int32/int64, contiguous or not) or AtomArray / AtomArrayStack - the documented containers; integer forms hold integer coordinates only (half ticks only with floating forms); plain Python lists are not documented inputs and are not exercised",
+        "Dom_Form: coordinates are handed over as ndarrays (float16/32/64, int32/int64, contiguous or not; also instances of ndarray subclasses: read-only numpy.memmap, a trivial user subclass - masked arrays and numpy.matrix are excluded) or AtomArray / AtomArrayStack - the documented containers; integer forms hold integer coordinates only (half ticks only with floating forms); plain Python lists are not documented inputs and are not exercised",
+        "motions off the lattice (family 'far', recorded 'far' events): rotations R = I + QE(q)/|q|^2 from integer quaternions, fixed = centre + small lattice set, rational translations and noise; witness law: RMSD(fitted) <= RMSD(generating motion's inverse) + (8 + fitted atoms) ulps, ulp = float32 spacing at the largest coordinate magnitude (measured on the unchanged code: <= 2.9 ulps in S2, <= 4.5 ulps over 4,000 recorded events); only forms that hold such coordinates (no integer forms, no float16)",
         "histories: operations mat / app / scr (caller edits a returned array in place) / setR, sett (attribute re-assigned) / incc (attribute edited in place), up to 4 (quick) or 5 (thorough) operations",
         "anchor path of superimpose_homologs decided only where the alignment is not needed: no positively scoring residue pair (PosScore = sign of BLOSUM62 on ALA/GLY/SER, bound to the real matrix by the driver) -> fallback, identical sequences -> identity pairing; everything else is 'open' (C08's subject); fewer backbone atoms than min_anchors: 'open' (the code refuses, undocumented)",
         "trusted: TLC, the TLA+ value parser, numpy",
     ]
-    res, states = helpers.dump_states(ctx, "RigidFit", "MC.cfg" if quick else "MC_thorough.cfg",
+    res, states = helpers.dump_states(ctx, "RigidFit", os.environ.get("DEV_C16_CFG") or "MC.cfg" if quick else "MC_thorough.cfg",
                                       workers=16, timeout=900 if quick else 3000)
     ctx.exhaustive = True
     done = [(s["vcase"], s["vout"]) for s in states if s["vout"]]
@@ -824,6 +910,7 @@ def run(ctx):
     zero = pos = whole = 0
     mob_forms, fix_forms, half_whole, aff_forms, hist_forms, paths = {}, {}, {}, {}, {}, {}
     hist_shapes = set()
+    far_forms, far_mob_forms, far_kinds = {}, {}, {}
     for c, o in done:
         kinds[c[0]] = kinds.get(c[0], 0) + 1
         if c[0] == "fit":
@@ -851,6 +938,12 @@ def run(ctx):
                 for j in range(i + 2, len(ops)):
                     if a in ("mat", "app") and ops[j] == a:
                         hist_shapes.update((a, x) for x in ops[i + 1:j])
+        elif c[0] == "far":
+            far_forms[c[1][8]] = far_forms.get(c[1][8], 0) + 1
+            far_mob_forms[c[1][9]] = far_mob_forms.get(c[1][9], 0) + 1
+            far_kinds["exact copy" if o[0][7][0] == 0 else "noise"] = far_kinds.get("exact copy" if o[0][7][0] == 0 else "noise", 0) + 1
+            far_kinds[f"depths {c[1][6]},{c[1][7]}"] = far_kinds.get(f"depths {c[1][6]},{c[1][7]}", 0) + 1
+            far_kinds["mask" if c[1][5] else "no mask"] = far_kinds.get("mask" if c[1][5] else "no mask", 0) + 1
         else:
             key = c[1][0] + ":" + o[0][0]
             paths[key] = paths.get(key, 0) + 1
@@ -858,11 +951,12 @@ def run(ctx):
                    witness_zero=zero, witness_positive=pos, whole_model_coincidence=whole,
                    mobile_forms_with_exact_fit=mob_forms, fixed_forms=fix_forms,
                    mobile_forms_fitted_onto_half_tick_positions=half_whole,
-                   affine_form_den_pairs=len(aff_forms), history_forms=hist_forms, anchor_paths=paths)
+                   affine_form_den_pairs=len(aff_forms), history_forms=hist_forms, anchor_paths=paths,
+                   far_fixed_forms=far_forms, far_mobile_forms=far_mob_forms, far_kinds=far_kinds)
     need = {"ok", "Rejected", "Unspecified", "affine:ok", "affine:Rejected"}
-    if not need <= set(ocs) or set(ranks) != {0, 1, 2, 3} or not (zero and pos and whole):
+    if not os.environ.get("DEV_C16_CFG") and (not need <= set(ocs) or set(ranks) != {0, 1, 2, 3} or not (zero and pos and whole)):
         raise Vacuity(f"families miss an outcome / rank / witness kind: {ocs} {ranks} {zero} {pos} {whole}")
-    if set(kinds) != {"fit", "affine", "hist", "anch"}:
+    if set(kinds) != {"fit", "affine", "hist", "anch", "far"}:
         raise Vacuity(f"a family is empty: {kinds}")
     if not quick or len(done) > 3000:     # (the tiny development config does not hold every combination)
         allf = set(FORMS)
@@ -872,16 +966,21 @@ def run(ctx):
         want = {(a, x) for a in ("mat", "app") for x in ("scr", "setR", "sett", "incc", "mat", "app")}
         if not want <= hist_shapes:
             raise Vacuity(f"history shapes missing: {sorted(want - hist_shapes)}")
+        if set(far_forms) != set(FINE_FORMS) or set(far_mob_forms) != set(FINE_FORMS) \
+                or not {"exact copy", "noise", "mask", "no mask", "depths 0,0", "depths 0,2", "depths 1,2"} <= set(far_kinds):
+            raise Vacuity(f"the family of motions off the lattice misses a form / kind: {far_forms} {far_mob_forms} {far_kinds}")
         wantp = {"homologs:fallback", "homologs:identity", "homologs:Rejected", "homologs:open", "outliers:outliers"}
         if not wantp <= set(paths):
             raise Vacuity(f"anchor paths missing: {paths}")
     ctx.cov["rule"] = ("a fit case is non-trivial when the rigid motion is not the identity or the witness bound is positive; "
                        "an affine case when it has a non-identity rotation; a history when an edit lies between two accessor calls; "
-                       "an anchor case when a residue is displaced or the path is not 'open'")
+                       "an anchor case when a residue is displaced or the path is not 'open'; "
+                       "a motion off the lattice when its rotation is not the identity")
     ctx.nontrivial += sum(1 for c, o in done if (c[0] == "fit" and (c[1][1] != 1 or any(w[0] > 0 for w in o[0][3])))
                           or (c[0] == "affine" and any(g != 1 for g in c[1][1]))
                           or (c[0] == "hist" and any(x not in ("mat", "app") for x in c[1][5][:-1]) and any(x in ("mat", "app") for x in c[1][5][:-1]))
-                          or (c[0] == "anch" and (c[1][6] or o[0][0] != "open")))
+                          or (c[0] == "anch" and (c[1][6] or o[0][0] != "open"))
+                          or (c[0] == "far" and any(q[1:] != [0, 0, 0] for q in c[1][2])))
     d = tlc.scratch_dir("c16")
     per = 100
     items = []
@@ -898,6 +997,13 @@ def run(ctx):
     ctx.cov["s2_cases"] = ncases
     ctx.cov["s2_calls"] = calls
     ctx.sample({"s2_case": done[len(done) // 3][0], "expected": done[len(done) // 3][1][0][:4]})
+    s2cov = {}
+    for r in results:
+        for key, v in (r.get("cov") or {}).items():
+            s2cov[key] = s2cov.get(key, 0) + v
+    ctx.cov["s2_far_tiny_relative_motion_above_rounding"] = s2cov.get("far_tiny_relative_motion_above_rounding", 0)
+    if kinds.get("far", 0) > 1000 and not ctx.violations and not ctx.cov["s2_far_tiny_relative_motion_above_rounding"]:
+        raise Vacuity("no motion off the lattice is small relative to the coordinates (1e-5) and above the rounding allowance")
     ctx.log(f"S2: {ncases} cases, {calls} calls compared with biotite")
     # recorded executions of the spec-generated anchor cases: judged by Trace.tla together with S3
     s2ev = [e for r in results for e in r.get("events", ())]
@@ -919,7 +1025,7 @@ def run(ctx):
     s3traces = [r["events"] for r in tres if r and r.get("events")]
     traces = s3traces + s2traces
     keep = ("op", "F", "M", "fd", "md", "mask", "oc", "rmsd2q", "sane", "min_anchors", "anchors", "fa", "ma",
-            "sF", "sM", "maxit")
+            "sF", "sM", "maxit", "nfit", "ue", "qfit", "qwit")
     nmm = 0
     for ci, chunk in enumerate(helpers.chunked(traces, 350)):
         for m in helpers.tlc_validate(ctx, chunk, keep=keep, timeout=1500):
@@ -932,17 +1038,21 @@ def run(ctx):
     nev = sum(len(t) for t in traces)
     ctx.traces_validated += len(s3traces)      # (the S2 anchor cases are counted with S2)
     ctx.evaluations += sum(len(t) for t in s3traces)
-    ops = {op: sum(1 for t in s3traces for e in t if e["op"] == op) for op in ("fit", "outliers", "homologs")}
+    ops = {op: sum(1 for t in s3traces for e in t if e["op"] == op) for op in ("fit", "outliers", "homologs", "far")}
     ctx.cov.update(s3_traces=len(s3traces), s3_events=sum(len(t) for t in s3traces), s3_ops=ops,
                    s3_fit_positive_rmsd=sum(1 for t in s3traces for e in t if e["op"] == "fit" and any(q > 3 for q in e["rmsd2q"])),
                    s3_anchor_removed=sum(1 for t in s3traces for e in t if e["op"] == "outliers" and len(e["anchors"]) < len(e["F"])),
                    s3_homolog_refused=sum(1 for t in s3traces for e in t if e["op"] == "homologs" and e["oc"] == "Rejected"),
                    s3_homolog_anchor_removed=sum(1 for t in s3traces for e in t if e["op"] == "homologs" and e["oc"] == "ok"
                                                  and len(e["fa"]) < min(len(e["F"]), len(e["M"]))),
+                   s3_far_exact_copies=sum(1 for t in s3traces for e in t if e["op"] == "far" and e["sane"] and all(q <= 2 * ULP_UNITS for q in e["qwit"])),
+                   s3_far_tiny_relative_motion_above_rounding=sum(1 for t in s3traces for e in t if e["op"] == "far" and e["sane"] and any(e["tiny_motion"])),
                    s3_forms=sorted({f for t in s3traces for e in t if "form" in e for f in ([e["form"]] if isinstance(e["form"], str) else e["form"])}),
                    events_judged_by_trace_spec=nev)
     if not all(ops.values()):
         raise Vacuity(f"S3 recorded no event of some kind: {ops}")
+    if not ctx.violations and not ctx.cov["s3_far_exact_copies"]:
+        raise Vacuity("S3 recorded no exact rigid copy off the lattice (witness RMSD <= 2 ulps)")
     ctx.nontrivial += sum(1 for t in s3traces if any(e["op"] != "fit" or any(q > 3 for q in e["rmsd2q"]) for e in t))
     ctx.sample({"s3_event": {k: v for k, v in s3traces[0][0].items() if k in keep}})
 
@@ -950,6 +1060,9 @@ def run(ctx):
         for e in tr:
             if e["op"] == "fit" and e["oc"] == "ok" and e["rmsd2q"]:
                 e["rmsd2q"][0] += 400 * KK
+                return True
+            if e["op"] == "far" and e["qfit"]:
+                e["qfit"][0] = e["qwit"][0] + ULP_UNITS * (8 + e["nfit"]) + 2      # just above the allowance
                 return True
             if e["op"] == "outliers" and e["anchors"]:
                 e["anchors"][0] = -1
